@@ -23,9 +23,19 @@ func (p *Path) crcStep(s, b *Term) *Term {
 	if s.IsConst() && b.IsConst() {
 		return ConstT(32, uint64(crc32.Update(uint32(s.Val), castagnoli, []byte{byte(b.Val)})))
 	}
-	r := UF("crc32c_step", 32, s, b)
 	apps, _ := p.ghost["crcapps"].([]crcApp)
+	// the same step over the same terms (a checksum recomputed over bytes read
+	// back from a buffer) is the same application
 	for _, a := range apps {
+		if a.s == s && a.b == b {
+			return a.r
+		}
+	}
+	r := UF("crc32c_step", 32, s, b)
+	for _, a := range apps {
+		if p.eng.noCRCLemmas {
+			break
+		}
 		// s equal, b different  => results differ;  b equal, s different => results differ
 		p.addPC(Implies(And(Eq(a.s, s), Not(Eq(a.b, b))), Not(Eq(a.r, r))))
 		p.addPC(Implies(And(Not(Eq(a.s, s)), Eq(a.b, b)), Not(Eq(a.r, r))))
